@@ -5,7 +5,7 @@ import Shutter.Proofs.GnosisSlot
 import Shutter.Generated.SqlFacts
 
 namespace Shutter.Properties.C19
-open Shutter.GnosisSlot List
+open Shutter.GnosisSlot Shutter.Sort List
 
 /-- **Gas-bounded prefix of the queue.**  For every database content whose queue for the eon is complete,
     every non-negative pointer and every gas limit, with every queued transaction carrying at least the
